@@ -41,7 +41,7 @@ COMPONENTS = {
 FAULT_KINDS = ["preemption_between_lines", "sibling_instance_created", "setattr_attempt", "delattr_attempt", "source_list_mutation", "returned_value_mutation_attempt"]
 PROBES = ["first_use_by_two_caller_threads", "receive_buffer_reused_after_deserialize", "two_caller_threads_interleaved", "looked_at_like_a_python_object", "snapshot_unavailable", "member_unreadable_before_assignment", "serialize_into_shared_writer", "twin_instance_compared", "reincarnated_instance_compared", "serialize_into_nonempty_writer", "unserializable_instance_observed", "invalid_instance", "live_sequence_view_argument", "packet_write_method", "serialize_into_sanitising_writer", "array_element_mutation_attempt", "array_of_structs", "optional_array_present", "blob_on_deserialized_instance", "case_data_mutated_through_parent",
           "one_shot_iterator_argument", "nested_instance_setattr", "byte_size_setattr", "first_serialize_failed_skipped",
-          "tree_rejected", "returned_value_was_mutable"]
+          "tree_rejected", "returned_value_was_mutable", "arguments_changed_before_first_read", "refused_serialize_then_looked"]
 
 
 def generate(streams, tier):
@@ -663,6 +663,65 @@ def first_use_by_two_callers(te, plan, res, tr):
     return None
 
 
+def blind_probes(te, case, res, tr):
+    """Two probes that look at NOTHING before the decisive step (reading a field first can repair lazily kept state):
+    (a) the caller changes the containers it passed right after construction, before the instance was ever read or
+        serialized: the instance still serializes as a twin built from untouched copies of the same arguments;
+    (b) a serialization - successful or refused - leaves everything the instance shows as it was."""
+    import copy
+    cls_name, val, iter_mask = case["cls"], case["value"], case.get("iter_mask", 0)
+
+    def viol(kind, sub, detail):
+        return {"kind": kind, "signature": f"C19|{kind}|{sub}", "detail": detail, "step": tr.steps, "case": case}
+
+    res.evaluations += 1
+    tr.ev("blind", cls_name)
+    try:
+        want = Instance(te, cls_name, "ctor", copy.deepcopy(val)).serialize()
+    except Exception:  # noqa
+        want = None
+    try:
+        inst = Instance(te, cls_name, "ctor", copy.deepcopy(val), None, iter_mask)
+    except Exception:  # noqa
+        return None
+    if want is not None:
+        changed = 0
+        for lst in inst.sources:
+            if lst:
+                lst.pop()
+                changed += 1
+        if changed:
+            res.count("probe.arguments_changed_before_first_read")
+            try:
+                got = inst.serialize()
+            except Exception as e:  # noqa
+                got = f"{type(e).__name__}: {e}"
+            if got != want:
+                return viol("argument-not-snapshotted", "before-first-read",
+                            f"{cls_name}: the caller shortened {changed} list(s) it had passed to the constructor before the instance was "
+                            f"first read or serialized; it serializes as {got.hex() if isinstance(got, bytes) else got!r}, a twin built "
+                            f"from untouched copies gives {want.hex()}")
+    try:
+        inst = Instance(te, cls_name, "ctor", copy.deepcopy(val))
+        before = repr(inst.obj)
+    except Exception:  # noqa
+        return None
+    try:
+        inst.serialize()
+        outcome = "successful"
+    except Exception:  # noqa
+        outcome = "refused"
+        res.count("probe.refused_serialize_then_looked")
+    try:
+        after = repr(inst.obj)
+    except Exception as e:  # noqa
+        after = f"{type(e).__name__}: {e}"
+    if before != after:
+        return viol("serialize-changed-instance", outcome,
+                    f"{cls_name}: repr before a {outcome} serialize: {before[:300]}; after: {after[:300]}")
+    return None
+
+
 def execute(plan, env):
     res = Result()
     res.evaluations = 0
@@ -683,6 +742,10 @@ def execute(plan, env):
                                 c.get("iter_mask", 0))
             except Exception:
                 continue
+            if c.get("blind"):
+                res.violation = blind_probes(te, c, res, tr)
+                if res.violation:
+                    break
             res.violation = run_history(inst, c["ops"], res, tr, c, shape_hash(te.spec.classes[c["cls"]]))
             if res.violation:
                 break
@@ -711,8 +774,14 @@ def execute(plan, env):
                             val = bad
                             res.count("probe.invalid_instance")
                     if origin == "ctor":
-                        inst = Instance(te, cd.name, "ctor", val, None, iter_mask)
                         case = {"cls": cd.name, "origin": "ctor", "value": val, "iter_mask": iter_mask}
+                        if rng.random() < 0.3:
+                            case["blind"] = True
+                            case["ops"] = []
+                            res.violation = blind_probes(te, case, res, tr)
+                            if res.violation:
+                                break
+                        inst = Instance(te, cd.name, "ctor", val, None, iter_mask)
                         if inst.iter_count:
                             res.count("probe.one_shot_iterator_argument")
                         if inst.view_count:
